@@ -912,3 +912,152 @@ def gen_module(rng, nfuncs, hist=None, first_index=0):
         calls[name] = tuples
         ptypes[name] = pts
     return HEADER + "\n\n".join(srcs), calls, ptypes
+
+
+# ---------------------------------------------------------------------------
+# composite variables: attribute chains and subscript chains (depth 1-3) narrowed by the C02 condition
+# kinds, then a reassignment of the root / an intermediate prefix / the immediate parent / a sibling /
+# the path itself *through the same access path* (no aliases are mutated), then re-reads.  The
+# replacement objects hold None / another type at the narrowed position, so a stale narrowing is
+# observably wrong.  (Seeded change round 2: FunctionScope._add_composite no longer registered a nested
+# composite under its immediate parent.)
+
+_INNERS = ["Inner(1, 2)", "Inner(None, 'x')", "Inner(0, 'y')", "Inner(None, 5)"]
+_OUTERS = [f"Outer({a}, {b}, {n}, {it})" for a, b, n, it in [
+    (_INNERS[0], _INNERS[1], "3", "[1, None, 2]"), (_INNERS[1], _INNERS[0], "None", "[None, 4, None]"),
+    (_INNERS[2], _INNERS[3], "0", "[0, 0, 0]"), (_INNERS[3], _INNERS[2], "7", "[None, None, None]")]]
+
+# family -> (root annotation, root samples, steps per level [(accessor source, type after the step)], replacement pools by type)
+COMPOSITE_FAMILIES = {
+    "list2": ("list[list[Optional[int]]]", ["[[1, 2, 3], [4, None, 6], [7, 8, 9]]", "[[None, None, None], [1, 1, 1], [0, 0, 0]]", "[[0, 5, None], [None, 2, 2], [3, 3, 3]]"],
+              [["[0]", "[1]", "[-1]"], ["[0]", "[1]", "[2]"]], ["L2", "L1", "leaf"]),
+    "list3": ("list[list[list[Optional[int]]]]", ["[[[1, 2, 3], [4, None, 6], [7, 8, 9]], [[None, 1, 2], [3, 4, 5], [6, 7, None]], [[0, 0, 0], [0, 0, 0], [0, 0, 0]]]",
+                                                   "[[[None, None, None], [1, 1, 1], [2, None, 2]], [[5, 5, 5], [None, None, None], [1, 2, 3]], [[9, 9, 9], [8, 8, None], [7, 7, 7]]]"],
+              [["[0]", "[1]"], ["[0]", "[1]", "[2]"], ["[0]", "[1]", "[2]"]], ["L3", "L2", "L1", "leaf"]),
+    "dict2": ("dict[str, dict[str, Optional[int]]]", ['{"a": {"a": 1, "b": 2}, "b": {"a": None, "b": 0}}', '{"a": {"a": None, "b": None}, "b": {"a": 3, "b": 4}}'],
+              [['["a"]', '["b"]'], ['["a"]', '["b"]']], ["D2", "D1", "leaf"]),
+    "attr2": ("Outer", _OUTERS, [[".a", ".b"], [".v"]], ["Outer", "Inner", "leaf"]),
+    "attr2w": ("Outer", _OUTERS, [[".a", ".b"], [".w"]], ["Outer", "Inner", "leafw"]),
+    "attr3": ("Top", [f"Top({_OUTERS[0]}, {_OUTERS[1]})", f"Top({_OUTERS[1]}, {_OUTERS[2]})", f"Top({_OUTERS[3]}, {_OUTERS[0]})"],
+              [[".o", ".p"], [".a", ".b"], [".v"]], ["Top", "Outer", "Inner", "leaf"]),
+    "attr_items": ("Outer", _OUTERS, [[".items"], ["[0]", "[1]", "[2]"]], ["Outer", "L1", "leaf"]),
+    "attr1": ("Outer", _OUTERS, [[".n"]], ["Outer", "leaf"]),
+    "top_items": ("Top", [f"Top({_OUTERS[0]}, {_OUTERS[1]})", f"Top({_OUTERS[1]}, {_OUTERS[3]})"], [[".o", ".p"], [".items"], ["[0]", "[1]"]], ["Top", "Outer", "L1", "leaf"]),
+}
+
+# replacement values by type tag: (annotation, samples)
+REPLACEMENTS = {
+    "leaf": ("Optional[int]", ["None", "5", "0"]),
+    "leafw": ("Union[int, str]", ["'s'", "3", "''", "0"]),
+    "L1": ("list[Optional[int]]", ["[None, None, None]", "[3, 4, 5]", "[0, None, 1]"]),
+    "L2": ("list[list[Optional[int]]]", ["[[None, None, None], [None, None, None], [None, None, None]]", "[[1, 2, 3], [4, 5, 6], [7, 8, 9]]"]),
+    "L3": ("list[list[list[Optional[int]]]]", ["[[[None, None, None], [None, None, None], [None, None, None]], [[None, None, None], [None, None, None], [None, None, None]], [[None, 1, 2], [3, None, 5], [6, 7, None]]]"]),
+    "D1": ("dict[str, Optional[int]]", ['{"a": None, "b": None}', '{"a": 7, "b": 8}']),
+    "D2": ("dict[str, dict[str, Optional[int]]]", ['{"a": {"a": None, "b": None}, "b": {"a": None, "b": None}}', '{"a": {"a": 1, "b": 1}, "b": {"a": 2, "b": 2}}']),
+    "Inner": ("Inner", _INNERS),
+    "Outer": ("Outer", _OUTERS),
+    "Top": ("Top", [f"Top({_OUTERS[1]}, {_OUTERS[3]})", f"Top({_OUTERS[0]}, {_OUTERS[2]})"]),
+}
+
+LEAF_CONDS = {
+    "leaf": ["{P} is not None", "{P} is None", "{P}", "not {P}", "isinstance({P}, int)", "{P} == 1", "{P} != 0", "{P} is not None and {P} > 0", "{P} in (1, 2, None)"],
+    "leafw": ["isinstance({P}, int)", "isinstance({P}, str)", "not isinstance({P}, str)", "{P}", "{P} == 's'", "{P} == 3", "type({P}) is int"],
+}
+
+
+def gen_composite_function(rng, name, hist=None):
+    fam = rng.choice(sorted(COMPOSITE_FAMILIES))
+    ann, samples, levels, tags = COMPOSITE_FAMILIES[fam]
+    steps = [rng.choice(opts) for opts in levels]
+    depth = len(steps)
+    path = "d" + "".join(steps)
+    leaf_tag = tags[-1]
+    params = [("d", ann, samples)]
+    # replacement parameters, one per prefix length 0..depth (0 = the root itself)
+    repl = {}
+    for k in range(depth + 1):
+        a, ss = REPLACEMENTS[tags[k]]
+        repl[k] = f"e{k}"
+        params.append((f"e{k}", a, ss))
+    ind = "    "
+    lines = [f"def {name}({', '.join(f'{n}: {a}' for n, a, _ in params)}):"]
+
+    def prefix(k):
+        return "d" + "".join(steps[:k])
+
+    def reassign(i2):
+        kind = rng.choice(["root", "prefix", "parent", "self", "sibling", "other-branch", "parent", "prefix"])
+        if kind == "root":
+            k = 0
+        elif kind == "prefix":
+            k = rng.randrange(0, depth)
+        elif kind == "parent":
+            k = depth - 1
+        elif kind == "self":
+            k = depth
+        elif kind == "sibling":
+            # another element of the same parent
+            alts = [s for s in levels[-1] if s != steps[-1]]
+            if alts:
+                if hist is not None:
+                    hist["comp:sibling"] = hist.get("comp:sibling", 0) + 1
+                return [f"{i2}{prefix(depth - 1)}{rng.choice(alts)} = {repl[depth]}"]
+            k = depth - 1
+        else:
+            # a different branch at an upper level (must not clear anything soundly, but must not narrow either)
+            lvl = rng.randrange(0, depth)
+            alts = [s for s in levels[lvl] if s != steps[lvl]]
+            if alts:
+                return [f"{i2}{prefix(lvl)}{rng.choice(alts)} = {repl[lvl + 1]}"]
+            k = depth - 1
+        if hist is not None:
+            hist[f"comp:reassign-{'root' if k == 0 else 'self' if k == depth else 'parent' if k == depth - 1 else 'prefix'}"] = hist.get(f"comp:reassign-{'root' if k == 0 else 'self' if k == depth else 'parent' if k == depth - 1 else 'prefix'}", 0) + 1
+        return [f"{i2}{prefix(k)} = {repl[k]}"]
+
+    cnt = [0]
+
+    def read(i2):
+        cnt[0] += 1
+        return f"{i2}r{cnt[0]} = {path}"
+
+    cond = rng.choice(LEAF_CONDS[leaf_tag]).replace("{P}", path)
+    shape = rng.randrange(4)
+    if shape == 0:
+        lines += [f"{ind}if {cond}:", read(ind * 2)] + reassign(ind * 2) + [read(ind * 2)]
+        if rng.random() < 0.5:
+            lines += reassign(ind * 2) + [read(ind * 2)]
+        lines += [f"{ind}else:", read(ind * 2)] + reassign(ind * 2) + [read(ind * 2)]
+        lines += [read(ind)]
+    elif shape == 1:
+        lines += [f"{ind}if {cond}:"] + reassign(ind * 2) + [read(ind * 2), f"{ind * 2}return {path}"]
+        lines += [read(ind)] + reassign(ind) + [read(ind)]
+    elif shape == 2:
+        cond2 = rng.choice(LEAF_CONDS[leaf_tag]).replace("{P}", path)
+        lines += [f"{ind}if {cond}:", read(ind * 2), f"{ind * 2}if {cond2}:"] + reassign(ind * 3) + [read(ind * 3)]
+        lines += [read(ind * 2)] + reassign(ind * 2) + [read(ind * 2)]
+        lines += [read(ind)]
+    else:
+        lines += [f"{ind}assert {cond}", read(ind)] + reassign(ind) + [read(ind)]
+        lines += [f"{ind}for i0 in range(2):", read(ind * 2)] + reassign(ind * 2) + [read(ind * 2)]
+        lines += [read(ind)]
+    lines.append(f"{ind}return {path}")
+    if hist is not None:
+        hist["comp:" + fam] = hist.get("comp:" + fam, 0) + 1
+    sample_lists = [ss for _, _, ss in params]
+    tuples = []
+    n = max(len(s) for s in sample_lists)
+    for j in range(n + 6):
+        # every call gets freshly constructed argument objects (the sources are evaluated per call)
+        tuples.append("(" + ", ".join(rng.choice(s) if j >= n else s[(j + k) % len(s)] for k, s in enumerate(sample_lists)) + ",)")
+    return "\n".join(lines) + "\n", list(dict.fromkeys(tuples)), [fam]
+
+
+def gen_composite_module(rng, nfuncs, hist=None):
+    srcs, calls = [], {}
+    for i in range(nfuncs):
+        name = f"c{i}"
+        src, tuples, _ = gen_composite_function(rng, name, hist)
+        compile(src, "<gen>", "exec")
+        srcs.append(src)
+        calls[name] = tuples
+    return HEADER + "\n\n".join(srcs), calls
